@@ -3,7 +3,7 @@
 Per filter, every argument tuple from typed domains: strings = all words of length <= 2 (quick) / 3 (thorough) over
 {a B space e-acute sharp-s dz-ligature emoji , %} plus a few longer ones; ints {0 +-1 +-2 +-7 10 2^31 2^53+1 +-10^20};
 floats {+-0.0 0.1 0.5 1.5 2.5 -2.5 1e16 1e-7}; numeric strings of those; arrays = all sequences of length <= 3 / 4
-over {1 2 "a" "B" nil true {k:1} {k:2} {j:1} {k:nil}}; keys {k j}. Every law is evaluated both by calling the
+over {1 2 "a" "B" nil true {k:1} {k:2} {j:1} {k:nil} {k:0} {k:true} {k:false}}; keys {k j}. Every law is evaluated both by calling the
 registered filter and through render('{{ x | f: ... }}') (string-key and lambda forms).
 Laws: ordered permutations (sort / sort_natural / sort_numeric / reverse); where + reject partition in order;
 find / find_index / has agree with where; uniq keeps first occurrences; compact drops exactly nils;
@@ -55,7 +55,7 @@ ALPHA = ["a", "B", " ", "é", "ß", "ǆ", "\U0001f600", ",", "%"]
 LONG = ["Ground control to Major Tom.", "  padded \t\n", "a,b,,c", "one  two\tthree\nfour", "<p>x &amp; y</p>", "%41+b c&d=e/é"]
 INTS = [0, 1, -1, 2, -2, 7, -7, 10, 2**31, 2**53 + 1, 10**20, -(10**20)]
 FLOATS = [0.0, -0.0, 0.1, 0.5, 1.5, 2.5, -2.5, 1e16, 1e-7]
-ELEMS: list[Any] = [1, 2, "a", "B", None, True, {"k": 1}, {"k": 2}, {"j": 1}, {"k": None}]
+ELEMS: list[Any] = [1, 2, "a", "B", None, True, {"k": 1}, {"k": 2}, {"j": 1}, {"k": None}, {"k": 0}, {"k": True}, {"k": False}]
 
 _ENV: dict[str, Any] = {}
 
@@ -103,7 +103,8 @@ def strings(maxlen: int) -> list[str]:
 def arrays(maxlen: int) -> list[list[Any]]:
     out: list[list[Any]] = []
     for n in range(0, maxlen + 1):
-        out += [list(c) for c in itertools.product(ELEMS, repeat=n)]
+        pool = ELEMS if n <= 3 else ELEMS[:7] + ELEMS[10:12]  # the longest arrays over a reduced element set
+        out += [list(c) for c in itertools.product(pool, repeat=n)]
     return out
 
 
